@@ -1,4 +1,4 @@
-import Qentem.Props.C13
+import Qentem.Proofs.HashTableSentences
 import Qentem.Proofs.Sort
 import Qentem.Proofs.Order
 /-!
@@ -6,8 +6,6 @@ Bridge between the two transcriptions of `Memory::Sort`: C15's checked `Qentem.S
 (`Option`, faults on out-of-range access) and the total `Qentem.HashTable.sortSeg` used by the hash
 table model.  Whenever the checked one succeeds, the total one returns the same array for the same
 fuel; C15's `sortSeg_spec` then gives the ordering the C13 statement `sort_orders_keys` needs.
-(Lives in `notes/` on branch agent/hashtable because `Qentem.Proofs.Sort` / `Qentem.Proofs.Order`
-are on branch agent/order; move to `lean/Qentem/Proofs/` after both are merged.)
 -/
 namespace Qentem.HashTable
 variable {α : Type}
@@ -147,17 +145,3 @@ theorem slotCmp_strict {V : Type} (ord : Nat → Nat) :
     exact this.trans x y z trivial trivial trivial h1 h2
 
 end Qentem.HashTable
-
-namespace Qentem.Props.C13
-open Qentem.Hash Qentem.HashTable
-
-/-- *(key order after a sort)*: after `Sort(true)` the live keys are in ascending order of
-`IsLess` (a proper prefix first) - the open statement of `Props/C13.lean`, closed with C15. -/
-theorem sort_orders_keys_proved : sort_orders_keys := by
-  intro V H ord s s' hI hrun
-  refine sort_orders_keys_partial ord hI hrun ?_
-  have := sortSeg_sorted (Spec.slotCmp (V := V) ord true) (fun _ => True) (slotCmp_strict ord)
-    (absSlots s).toArray (fun _ _ => trivial)
-  simpa using this
-
-end Qentem.Props.C13
